@@ -19,6 +19,13 @@ Structural necessary conditions decided on the resolved program (never behaviour
  X1 parser-handler-keeps-upstream-errors   a handler of the parser stage whose try block pops the input queue and which catches
                              a type the read thread can throw (derived from the throw sites + bases) rethrows/throws/forwards
                              on every path; catch (...) included
+ W1 child-failure-reported   after waitpid() the throw is reached for waitpid failure, death by signal and non-zero exit code, and
+                             not for a clean exit: the extracted branch conditions (W* macros = bit operations on the status
+                             word) are evaluated for four representative (result, status) pairs -- a finite case analysis of
+                             the condition, nothing is run
+ W2 pipe-ends-paired         fork child closes every descriptor except pipefd[1] (guards of close(i) evaluated for the read
+                             end, the write end, others), dup2s it onto 1; the parent closes pipefd[1] on every path and
+                             returns pipefd[0]
  S1 status-gates-access      Reader::read pops the osmdata queue only in status okay; header() never waits on the header
                              future in status error
  S2 handler-closes-marks-error-rethrows   each catch (...) guarding those accesses calls close(), then stores status error,
@@ -663,6 +670,255 @@ def rule_header_before_data(fb, R, value_setters):
                     'a consumer blocked in Reader::header() while the parser blocks on the full result queue never returns'
                     % (g.q, what, '(%s)' % arg if arg else ''))
     return n
+
+
+# ------------------------------------------------------------------------------------------------ W1 / W2 (URL input: curl child process)
+
+def _ceval(fn, nid, env, depth=0):
+    """Constant evaluation of an integer / boolean expression of the fact base under an environment for a few variables:
+    env[('var', decl)], env[('idx', array decl, constant index)], env[('node', id)].  None = depends on something else."""
+    if nid is None or nid not in fn.nodes or depth > 40:
+        return None
+    n = fn.nodes[nid]
+    if ('node', nid) in env:
+        return env[('node', nid)]
+    k = n.get('k')
+    if k in ('wrap', 'icast', 'cast'):
+        return _ceval(fn, n.get('sub'), env, depth + 1)
+    if k == 'var':
+        if ('var', n.get('d')) in env:
+            return env[('var', n.get('d'))]
+        if n.get('vk') == 'enumconst' and 'cv' in n:
+            return int(n['cv'])
+        if n.get('vk') in ('local', None):
+            # a named local written exactly once (its initialiser) stands for that expression
+            init, writes = None, 0
+            for m in fn.all_nodes():
+                if m.get('k') == 'decl':
+                    for v in m['vars']:
+                        if v['d'] == n.get('d'):
+                            writes += 1
+                            init = v.get('init') if isinstance(v.get('init'), int) else None
+                elif m.get('k') == 'assign' and (fn.sn(m['lhs']) or {}).get('d') == n.get('d') and (fn.sn(m['lhs']) or {}).get('k') == 'var':
+                    writes += 2
+                elif m.get('k') == 'unop' and m.get('op') in ('++', '--') and (fn.sn(m['sub']) or {}).get('d') == n.get('d'):
+                    writes += 2
+            if writes == 1 and init is not None:
+                return _ceval(fn, init, env, depth + 1)
+        return None
+    if k == 'index':
+        b = fn.sn(n['base'])
+        i = _ceval(fn, n['idx'], env, depth + 1)
+        if b is not None and b.get('k') == 'var' and i is not None:
+            return env.get(('idx', b.get('d'), i))
+        return None
+    if k == 'lit':
+        v = fn.const_value(nid)
+        return v
+    if k == 'unop':
+        v = _ceval(fn, n['sub'], env, depth + 1)
+        if v is None:
+            return None
+        return {'!': lambda x: int(not x), '-': lambda x: -x, '~': lambda x: ~x, '+': lambda x: x}.get(n.get('op'), lambda x: None)(v)
+    if k == 'binop':
+        op = n.get('op')
+        a = _ceval(fn, n['lhs'], env, depth + 1)
+        if op == '&&':
+            if a is not None and not a:
+                return 0
+            b = _ceval(fn, n['rhs'], env, depth + 1)
+            return None if (a is None or b is None) and not (b is not None and not b) else int(bool(a) and bool(b)) if a is not None and b is not None else 0
+        if op == '||':
+            if a is not None and a:
+                return 1
+            b = _ceval(fn, n['rhs'], env, depth + 1)
+            if b is not None and b:
+                return 1
+            return 0 if (a is not None and b is not None) else None
+        b = _ceval(fn, n['rhs'], env, depth + 1)
+        if a is None or b is None:
+            return None
+        try:
+            return {'<': lambda: int(a < b), '<=': lambda: int(a <= b), '>': lambda: int(a > b), '>=': lambda: int(a >= b),
+                    '==': lambda: int(a == b), '!=': lambda: int(a != b), '&': lambda: a & b, '|': lambda: a | b, '^': lambda: a ^ b,
+                    '>>': lambda: a >> b, '<<': lambda: a << b, '+': lambda: a + b, '-': lambda: a - b, '*': lambda: a * b}[op]()
+        except (KeyError, ValueError):
+            return None
+    if k == 'condop':
+        c = _ceval(fn, n['cond'], env, depth + 1)
+        if c is None:
+            return None
+        return _ceval(fn, n['then'] if c else n['else'], env, depth + 1)
+    if 'cv' in n and not n.get('float'):
+        try:
+            return int(n['cv'])
+        except ValueError:
+            return None
+    return None
+
+
+def _walk_outcomes(fn, start_elem, env):
+    """Follow the CFG from just after start_elem, deciding every branch whose condition evaluates under env (both edges
+    otherwise).  Returns the set of outcomes reached: 'throw', 'exit', or 'unknown-branch' markers are not needed."""
+    pos = fn.positions()
+    b0, i0 = pos[start_elem]
+    out = set()
+    seen = set()
+    work = [(b0, i0 + 1)]
+    while work:
+        b, i = work.pop()
+        blk = fn.blocks[b]
+        thrown = False
+        for e in blk['elems'][i:]:
+            if fn.nodes[e].get('k') == 'throw':
+                out.add('throw')
+                thrown = True
+                break
+        if thrown:
+            continue
+        if b == fn.exit:
+            out.add('exit')
+            continue
+        succs = blk['succs']
+        nxt = [x for x in succs if x is not None]
+        if 'cond' in blk and len(succs) == 2 and blk.get('termcls') != 'SwitchStmt':
+            v = _ceval(fn, blk['cond'], env)
+            if v is not None:
+                t = succs[0] if v else succs[1]
+                nxt = [t] if t is not None else []
+        if not nxt and b != fn.exit:
+            out.add('exit')
+        for x in nxt:
+            if x not in seen:
+                seen.add(x)
+                work.append((x, 0))
+    return out
+
+
+def rule_child_process(fb, R, dirs=('/osmium/io/',)):
+    """W1: after waitpid(child, &status, 0) the failure of the child is reported: the throw is reached when waitpid fails, when
+    the child was killed by a signal, and when it exited with a non-zero code, and is not reached for a clean exit -- decided by
+    evaluating the extracted branch conditions (the W* macros are bit operations on the status word) for representative
+    status words.   W2: pipe ends of the child: the child closes every descriptor except the write end, dups the write end
+    onto stdout; the parent closes the write end on every path and returns the read end."""
+    nw = 0
+    for f in _dedupe([g for g in fb.functions if g.has_cfg and g.file and any(d in g.file for d in dirs)]):
+        for c in _calls(f):
+            if c.get('q') not in ('waitpid', '::waitpid') or len(c.get('args', [])) < 2:
+                continue
+            nw += 1
+            a1 = f.sn(c['args'][1])
+            sv = f.sn(a1['sub']) if a1 is not None and a1.get('k') == 'unop' and a1.get('op') == '&' else None
+            if sv is None or sv.get('k') != 'var':
+                R.broken('%s: cannot identify the status variable of waitpid' % f.q)
+                continue
+            env0 = {}
+            rv = None
+            for m in f.all_nodes():
+                if m.get('k') == 'decl':
+                    for v in m['vars']:
+                        if isinstance(v.get('init'), int) and c['id'] in f.subtree(v['init']):
+                            rv = v['d']
+            start = elem_of(f, c['id'])
+            for (name, pid, status, want) in (('clean-exit', 4711, 0x0000, 'exit'), ('exit-code-1', 4711, 0x0100, 'throw'),
+                                              ('killed-by-signal', 4711, 0x000b, 'throw'), ('waitpid-failed', -1, 0, 'throw')):
+                env = dict(env0)
+                env[('var', sv['d'])] = status
+                env[('node', c['id'])] = pid
+                if rv is not None:
+                    env[('var', rv)] = pid
+                got = _walk_outcomes(f, start, env)
+                R.check(got == {want}, 'W1-child-failure-reported', '%s#waitpid:%s' % (f.q, name), f.loc(c['id']),
+                        'after waitpid() in %s, with result %d and status word 0x%04x (%s) the function must %s but can %s: a failed '
+                        'download (curl exit code / signal) would not be reported to the caller of close()'
+                        % (f.q, pid, status, name, 'throw' if want == 'throw' else 'return normally', ' or '.join(sorted(got)) or 'nothing'))
+    if nw == 0:
+        R.broken('W1: no waitpid call found under io/ (Reader::close expected)')
+
+    np = 0
+    for f in _dedupe([g for g in fb.functions if g.has_cfg and g.file and any(d in g.file for d in dirs)]):
+        pipes = [c for c in _calls(f) if c.get('q') in ('pipe', '::pipe') and c.get('args')]
+        forks = [c for c in _calls(f) if c.get('q') in ('fork', '::fork')]
+        if not pipes or not forks:
+            continue
+        np += 1
+        arr = f.sn(pipes[0]['args'][0])
+        if arr is None or arr.get('k') != 'var':
+            R.broken('%s: cannot identify the array passed to pipe()' % f.q)
+            continue
+        ad = arr['d']
+        pidv = None
+        for m in f.all_nodes():
+            if m.get('k') == 'decl':
+                for v in m['vars']:
+                    if isinstance(v.get('init'), int) and forks[0]['id'] in f.subtree(v['init']):
+                        pidv = v['d']
+        # the branch on pid == 0
+        childb = None
+        for b in f.blocks.values():
+            if 'cond' in b and len(b['succs']) == 2 and pidv is not None:
+                t = _ceval(f, b['cond'], {('var', pidv): 0})
+                p_ = _ceval(f, b['cond'], {('var', pidv): 4711})
+                if t is not None and p_ is not None and bool(t) != bool(p_) and _ceval(f, b['cond'], {('var', pidv): -1}) == p_:
+                    childb = (b, b['succs'][0] if t else b['succs'][1], b['succs'][1] if t else b['succs'][0])
+        if childb is None:
+            R.broken('%s: cannot find the branch that separates the fork child (pid == 0) from the parent' % f.q)
+            continue
+        _blk, child_s, parent_s = childb
+        child_blocks = f.reachable_blocks(child_s) - f.reachable_blocks(parent_s) if child_s is not None else set()
+        pos = f.positions()
+        closes = [c for c in _calls(f) if c.get('q') in ('close', '::close') and c.get('args')]
+        # --- child: which descriptors does the closing loop spare?
+        READ, WRITE, OTHER = 3, 4, 5
+        spared = {}
+        shape_ok = True
+        child_closes = [c for c in closes if pos.get(c['id'], (None,))[0] in child_blocks]
+        loop_closes = [c for c in child_closes if (f.sn(c['args'][0]) or {}).get('k') == 'var' and [l for l in f.loops if f.in_range(c['id'], l['b'], l['e'])]]
+        if not loop_closes:
+            R.broken('%s: no descriptor-closing loop found in the fork child' % f.q)
+            continue
+        for v in (READ, WRITE, OTHER, 0, 2):
+            closed = False
+            for c in loop_closes:
+                iv = f.sn(c['args'][0])['d']
+                env = {('var', iv): v, ('idx', ad, 0): READ, ('idx', ad, 1): WRITE}
+                if pidv is not None:
+                    env[('var', pidv)] = 0
+                # only guards that talk about the loop variable decide which descriptors are closed
+                rel = [(cn, sense) for (cn, sense, _b) in guards_of(f, c['id'])
+                       if any(f.nodes[x].get('k') == 'var' and f.nodes[x].get('d') == iv for x in f.subtree(cn))]
+                vals = [(_ceval(f, cn, env), sense) for (cn, sense) in rel]
+                if any(x is None for (x, _s) in vals):
+                    shape_ok = False
+                if all(x is not None and bool(x) == bool(sense) for (x, sense) in vals):
+                    closed = True
+            spared[v] = not closed
+        if not shape_ok:
+            R.broken('%s: a guard of the descriptor-closing loop in the fork child cannot be evaluated' % f.q)
+            continue
+        kept = sorted(k for k, sp in spared.items() if sp)
+        R.check(kept == [WRITE], 'W2-pipe-ends-paired', f.q + '#child-closes-all-but-write-end', f.loc(loop_closes[0]['id']),
+                'the fork child in %s must close every inherited descriptor except the write end of the pipe (pipefd[1]); it spares %s. '
+                'A child that keeps the read end never gets EPIPE/EOF semantics right: when the consumer stops early curl keeps writing and '
+                'Reader::close() hangs in waitpid()' % (f.q, ', '.join({READ: 'the read end pipefd[0]', WRITE: 'the write end', OTHER: 'unrelated descriptors',
+                                                                          0: 'stdin', 2: 'stderr'}[k] for k in kept) or 'nothing (not even the write end)'))
+        dups = [c for c in _calls(f) if c.get('q') in ('dup2', '::dup2') and len(c.get('args', [])) == 2 and pos.get(c['id'], (None,))[0] in child_blocks
+                and _ceval(f, c['args'][0], {('idx', ad, 0): READ, ('idx', ad, 1): WRITE}) == WRITE and _ceval(f, c['args'][1], {}) == 1]
+        R.check(bool(dups), 'W2-pipe-ends-paired', f.q + '#child-dups-write-end-to-stdout', f.site,
+                'the fork child in %s must dup2() the write end of the pipe onto descriptor 1' % f.q)
+        # --- parent
+        penv = {('idx', ad, 0): READ, ('idx', ad, 1): WRITE}
+        pw = {elem_of(f, c['id']) for c in closes if _ceval(f, c['args'][0], penv) == WRITE and pos.get(c['id'], (None,))[0] not in child_blocks}
+        pr = [c for c in closes if _ceval(f, c['args'][0], penv) == READ and pos.get(c['id'], (None,))[0] not in child_blocks]
+        w = must_pass(f, parent_s, pw) if parent_s is not None else ['no parent branch']
+        R.check(w is None, 'W2-pipe-ends-paired', f.q + '#parent-closes-write-end', f.site,
+                'the parent in %s must close the write end of the pipe (pipefd[1]) on every path, otherwise the reader never sees end of file: %s' % (f.q, _dp(f, w)))
+        rets = [r for r in f.all_nodes() if r.get('k') == 'return' and isinstance(r.get('sub'), int)]
+        okr = bool(rets) and all(_ceval(f, r['sub'], penv) == READ for r in rets) and not pr
+        R.check(okr, 'W2-pipe-ends-paired', f.q + '#parent-returns-read-end', f.site,
+                'the parent in %s must keep the read end of the pipe (pipefd[0]) open and return it' % f.q)
+    if np == 0:
+        R.broken('W2: no function that creates a pipe and forks found under io/ (Reader::execute expected)')
 
 
 # ------------------------------------------------------------------------------------------------ S1..S3
@@ -1426,7 +1682,6 @@ C19_MAP = {
     'Q4-consumer-predicate': 'U4-consumer-wait-has-shutdown-flag',
     'Q5-shutdown-notify_all': 'U5-shutdown-wakes-all-consumers',
     'Q5-shutdown-flag-before-notify': 'U5-shutdown-wakes-all-consumers',
-    'Q7-bounded-wait-loop': 'U3-producer-wait-timed-in-retest-loop',
 }
 
 
@@ -1480,17 +1735,63 @@ def rule_unblocking(fb, R):
         if not all(k in F for k in ('queue', 'mutex', 'flag')):
             R.broken('%s: cannot identify the monitor members' % rec.full)
             continue
-        for f in fb.functions:
-            if f.cls == QUEUE and f.clsT == rec.full and f.name == 'push' and not f.is_lambda:
-                npush += 1
-                sites = [c for (c, cv, timed, lockd, g, pred) in c19._wait_sites(fb, f, F)] + c19._qcalls(f, F, ('push', 'emplace'))
-                ok = bool(sites)
-                for c in sites:
-                    gs = guards_of(f, c['id'])
-                    if not any(((not s) and c19._reads_flag_negated(f, cn, F)) or (s and c19._reads_flag(f, cn, F)) for (cn, s, _b) in gs):
-                        ok = False
-                R.check(ok, 'U3-push-returns-when-shut-down', f.q + '#flag-first', f.site,
-                        'Queue::push must test the in-use flag before it waits for space or inserts: a producer must never block on a queue that was shut down')
+        methods = [f for f in fb.functions if f.cls == QUEUE and f.clsT == rec.full and not f.is_lambda and f.has_cfg]
+        cons, prod = c19._cv_roles(fb, methods, F)
+        for f in methods:
+            if f.name != 'push':
+                continue
+            npush += 1
+            # push and the private helpers it calls (treated as inlined): [(function, call path from push [(caller, call node)...])]
+            reach = [(f, [])]
+            seen = {id(f)}
+            i = 0
+            while i < len(reach):
+                g, path = reach[i]
+                i += 1
+                for c in g.all_nodes():
+                    if c.get('k') == 'call' and c.get('u') and c.get('rcls') == QUEUE and not c.get('virt') and len(path) < 3:
+                        for t in fb.by_usr.get(c['u'], []):
+                            if t.has_cfg and t.clsT == rec.full and id(t) not in seen and t.name not in ('size', 'empty', 'in_use'):
+                                seen.add(id(t))
+                                reach.append((t, path + [(g, c)]))
+
+            def inherited_guards(g, nid, path):
+                """guards of the element in its own function plus the guards of every call on the path from push."""
+                gs = [(g, cn, s) for (cn, s, _b) in guards_of(g, nid)]
+                for (cg, c) in path:
+                    gs += [(cg, cn, s) for (cn, s, _b) in guards_of(cg, c['id'])]
+                return gs
+
+            def flag_tested(gs):
+                return any(((not s) and c19._reads_flag_negated(g, cn, F)) or (s and c19._reads_flag(g, cn, F)) for (g, cn, s) in gs)
+            waits, sites = [], []
+            for (g, path) in reach:
+                for (c, cv, timed, lockd, lam, pred) in c19._wait_sites(fb, g, F):
+                    sites.append((g, c, path))
+                    if prod is None or cv == prod:
+                        waits.append((g, c, path, timed))
+                for c in c19._qcalls(g, F, ('push', 'emplace')):
+                    sites.append((g, c, path))
+            ok = bool(sites) and all(flag_tested(inherited_guards(g, c['id'], path)) for (g, c, path) in sites)
+            R.check(ok, 'U3-push-returns-when-shut-down', f.q + '#flag-first', f.site,
+                    'Queue::push must test the in-use flag before it waits for space or inserts: a producer must never block on a queue that was shut down')
+            # the full-queue wait: timed, inside a loop (of the function it stands in) that re-tests the size against the bound
+            okw = bool(waits)
+            for (g, c, path, timed) in waits:
+                inloop = [l for l in g.loops if g.in_range(c['id'], l['b'], l['e'])]
+                retest = False
+                for (cn, s, _b) in guards_of(g, c['id']):
+                    x = g.sn(cn)
+                    if s and x is not None and x.get('k') == 'binop' and x['op'] in ('>=', '>', '<', '<=', '==', '!='):
+                        sub = [g.nodes[y] for y in g.subtree(cn)]
+                        has_size = any(y.get('k') == 'call' and y.get('q') in (QUEUE + '::size', 'std::queue::size') for y in sub)
+                        has_max = any(y.get('k') == 'member' and y.get('name') == F.get('max') for y in sub)
+                        if has_size and has_max and [l for l in inloop if g.in_range(cn, l['b'], l['e'])]:
+                            retest = True
+                okw = okw and timed and bool(inloop) and retest
+            R.check(okw, 'U3-producer-wait-timed-in-retest-loop', f.q + '#full-loop', f.site,
+                    'the full-queue wait of Queue::push (in push or a helper it calls) must be a timed wait inside a loop that re-tests the '
+                    'queue size against %s: an untimed or un-retested wait blocks a producer forever once the consumer is gone' % F.get('max'))
     if npush == 0:
         R.broken('no instantiation of Queue::push found')
     # U3b / U4 / U5: the C19 MONITOR rules, re-reported under this property
@@ -1556,6 +1857,7 @@ def all_rules(fb, R, fbq=None):
     if not rule_header_before_data(fb, R, setters):
         R.broken('H3: no call that starts object data (maybe_new_buffer / send_to_output_queue) found in the parser classes')
     rule_parser_handlers(fb, R, E)
+    rule_child_process(fb, R)
     rule_reader_state(fb, R, E)
     rule_read_loop(fb, R)
     if not rule_parser_input_loops(fb, R):
@@ -1584,6 +1886,8 @@ def run(ctx):
     R.expect('H2-run-sets-header', 4)                # XML, PBF, O5m, OPL
     R.expect('H3-header-set-before-object-data', 4)  # 11 today (XML 4, O5m 3, OPL 3, PBF 1); at least one per parser
     R.expect('X1-parser-handler-keeps-upstream-errors', 2)   # Parser::parse catch (...), PBFParser::read_blob_header_size_from_file
+    R.expect('W1-child-failure-reported', 4)         # Reader::close: clean exit / exit code / signal / waitpid failure
+    R.expect('W2-pipe-ends-paired', 4)               # Reader::execute: child spares only the write end, dup2, parent closes write / returns read
     R.expect('S1-status-gates-access', 2)            # read#pop, header#future-get
     R.expect('S2-handler-closes-marks-error-rethrows', 6)
     R.expect('S3-close-stores-closed', 1)
@@ -1614,6 +1918,7 @@ def _selftest(fb, R):
     setters = rule_header_promise(fb, R)
     rule_header_before_data(fb, R, setters)
     rule_parser_handlers(fb, R, E)
+    rule_child_process(fb, R, dirs=('',))
     rule_reader_state(fb, R, E)
     rule_read_loop(fb, R)
     rule_parser_input_loops(fb, R)
@@ -1634,7 +1939,7 @@ def _selftest(fb, R):
 
 SELFTESTS = [(r, 'c07_pipeline.cpp', _selftest) for r in (
     'E1-thread-entry-no-leak', 'E2-end-of-data-on-all-paths', 'E2-catch-all-forwards-exception', 'H1-header-promise-guarded',
-    'H2-run-sets-header', 'H3-header-set-before-object-data', 'X1-parser-handler-keeps-upstream-errors', 'S1-status-gates-access', 'S2-handler-closes-marks-error-rethrows', 'S3-close-stores-closed',
+    'H2-run-sets-header', 'H3-header-set-before-object-data', 'X1-parser-handler-keeps-upstream-errors', 'W1-child-failure-reported', 'W2-pipe-ends-paired', 'S1-status-gates-access', 'S2-handler-closes-marks-error-rethrows', 'S3-close-stores-closed',
     'S3-close-shutdown-before-join', 'S3-close-idempotent', 'S3-stop-flag-before-join', 'S3-read-loop-tests-stop-flag',
     'S4-parser-fd-loop-observes-close', 'F1-parser-closes-its-descriptor', 'D1-destructor-swallows', 'D1-throwing-call-in-destructor-wrapped', 'L1-referent-declared-before-holder',
     'J1-thread-member-joined', 'P1-add-to-queue-pushes-and-fulfils')]
